@@ -686,6 +686,20 @@ impl DtlsInner {
                                 )
                                 .await?;
                             }
+                            // RFC 6347 §4.2.4: a peer that has already finished answers a
+                            // retransmission of the other side's last flight by resending its
+                            // own final flight. Without this, losing the datagram that carries
+                            // our Finished leaves us Connected and the client handshaking
+                            // until its deadline.
+                            else if msg.msg_type == HandshakeType::Finished
+                                && !is_client
+                                && matches!(*self.state.lock(), DtlsState::Connected(..))
+                                && let Some(records) = &ctx.last_flight_records
+                            {
+                                if let Err(e) = self.conn.send_dtls_record_batch(records).await {
+                                    debug!("Failed to resend final flight: {}", e);
+                                }
+                            }
                             continue;
                         }
                     }
